@@ -195,7 +195,16 @@ func runOne(st Stim, transport string) Trace {
 		switch a.A {
 		case "start":
 			if state == "idle" {
+				// the call runs on a goroutine of its own: the history goes on once it has registered its token (or has
+				// returned - refused), however long the scheduler takes to get there
+				t0, _ := cn.tables()
 				start(a.C)
+				hooks.WaitFor(2*time.Second, func() bool {
+					t, _ := cn.tables()
+					mu.Lock()
+					defer mu.Unlock()
+					return t > t0 || cs[a.C].state != "out"
+				})
 				applied = true
 			}
 		case "answer":
